@@ -227,7 +227,8 @@ def run(ctx):
         by_kind.setdefault(f["key"]["kind"], []).append(f)
     for kind, fl in sorted(by_kind.items()):
         f0 = fl[0]
-        V.violation(ctx, "%s of %s/%s at T=%.6f K, x=%.6f: %s" % (kind, f0["key"]["pair"][0], f0["key"]["pair"][1], f0["key"]["T"], f0["key"]["x"], f0["what"]),
+        where = ("case %s" % f0["hetero_point"]) if "hetero_point" in f0 else "at T=%.6f K, x=%.6f" % (f0["key"]["T"], f0["key"]["x"])
+        V.violation(ctx, "%s of %s/%s %s: %s" % (kind, f0["key"]["pair"][0], f0["key"]["pair"][1], where, f0["what"]),
                     {"broken": "public-API recomputation of the equilibrium conditions at returned results / success inside the stated window",
                      "kind": kind, "failing_inputs": fl[:10], "count": len(fl),
                      **({"hetero_point": f0["hetero_point"]} if "hetero_point" in f0 else
